@@ -16,9 +16,12 @@ on B B^T / random SPD inputs whose pivot order is separated from rounding noise.
 (triangle, storage) pairs blocked: left-looking leaf C02BlkModel.potrf_rec, right-looking leaf C02RlModel.potrf_rec_rl), the LU class
 with matrix right-hand sides through C02LUMatModel.lu_solve_m (two blocked trsm).
 Conjugate gradient (op J: conjugate_gradient(eps, maxit) with explicit arguments; vector solve left/right, matrix solve left/right): model
-C02CgModel.v over Q (exact rationals) compared at 1e-9 with the implementation ITERATE BY ITERATE (maxit = 1..n exposes x_1..x_n, then the
-run to convergence), exactly on runs whose step lengths are dyadic, and over doubles on random SPD systems; monitor: after a return
-through the stopping rule the true residual is below eps (+ rounding), right = transpose of left.
+C02CgModel.v over Q and over doubles.  A floating-point CG run is determined only up to its stopping threshold times ||A^-1||, and rounding
+differences are amplified along the iteration, so only this is compared (j_close): runs with dyadic step lengths exactly; the first iterate
+of the columns of the matrix version with the derived bound 4((3n+1) kappa + 2) u |x_1|; converged runs with the a-posteriori bound
+|x - x'| <= (|b - A x| + |b - A x'|) / gap (residuals recomputed exactly, Varah bound for the generated diagonally dominant matrices,
+condition <= 9).  Monitors (proved statements): true residual < eps (+ drift slack) after a return through the stopping rule; finite
+termination (residual after n iterations, n <= 5); left/right solutions within the same a-posteriori bound.
 Symmetric eigen-decomposition (op E): the WHOLE of kernels::syev is modelled as coded (C02SyevModel.v: Householder reduction, accumulation,
 implicit QL, eigensort, normalisation) and compared through the instantiation with doubles (Q and D at 1e-9) on symmetric matrices with
 well separated eigenvalues and on tridiagonal inputs; exactly on diagonal matrices; the intermediate tridiagonal matrix cannot be observed
@@ -350,14 +353,35 @@ def gen_U_cases(rng, big):
             cases.append(("fmodel", "U %s %d %s %s | %s | %s" % (ao, n, tok(alpha), tok(beta), fl(a2), fl([v]))))
     return cases
 # ---------------------------------------------------------------- conjugate gradient (op J: explicit epsilon and max_iterations)
-def gen_spd_int(rng, n, spread=3):
-    """small-integer symmetric positive definite matrix, well conditioned (G G^T + d I)"""
-    g = [[rint(rng, -2, 2) for _ in range(n)] for _ in range(n)]
-    a = mmul(g, tr(g)); d = rng.randint(max(2, n), spread * n + 4)
-    for i in range(n): a[i][i] += d
+U_ROUND = Fr(1, 2 ** 53)                   # unit roundoff of IEEE double
+def gen_dd(rng, n, floats=False, near_identity=False):
+    """symmetric strictly diagonally dominant matrix with CONSTANT diagonal D >= max_i R_i / 0.8 (R_i = off-diagonal absolute row sum):
+    by Gershgorin every eigenvalue lies in [0.2 D, 1.8 D], so the matrix is positive definite with condition number <= 9, and
+    ||A^-1||_inf <= 1 / min_i (a_ii - R_i) (Varah)"""
+    if near_identity:           # A ~ I: the start vector x0 = b of the vector version is better than 0
+        a = [[Fr(0)] * n for _ in range(n)]
+        for i in range(n):
+            for j in range(i): a[i][j] = a[j][i] = Fr(rng.randint(-1, 1), 8)
+        for i in range(n): a[i][i] = Fr(1)
+        return a
+    a = [[0.0 if floats else Fr(0)] * n for _ in range(n)]
+    for i in range(n):
+        for j in range(i): a[i][j] = a[j][i] = (rng.uniform(-1, 1) if floats else rint(rng, -1, 1))
+    rmax = max(sum(abs(a[i][j]) for j in range(n) if j != i) for i in range(n))
+    d = (float(rmax) / 0.8 * (1 + 0.25 * rng.random()) + 0.5) if floats else Fr(max(1, math.ceil(Fr(rmax) * 5 / 4)) + rng.randint(0, 2))
+    for i in range(n): a[i][i] = d
     return a
+def dd_gap(a):
+    """min_i (a_ii - sum_{j != i} |a_ij|); > 0 iff strictly diagonally dominant with positive diagonal"""
+    n = len(a); return min(a[i][i] - sum(abs(a[i][j]) for j in range(n) if j != i) for i in range(n))
 def J_line(ao, n, m, eps, maxit, a, b): return "J %s %d %d %s %d | %s | %s" % (ao, n, m, tok(eps), maxit, fl(a), fl(b))
 def gen_J_cases(rng, big):
+    """conjugate gradient with explicit (eps, maxit).  What is compared / monitored is restricted to what is determined up to rounding:
+    exact runs (dyadic step lengths) exactly; the FIRST iterate of the columns of the matrix version (start 0, r0 = b exact) with a derived
+    rounding bound; converged runs (maxit = 0) with the a-posteriori bound |x - x'| <= ||A^-1||_inf (|b - A x| + |b - A x'|) (exact
+    residuals, Varah bound) and the residual test of the proved stopping guarantee; maxit = n on condition <= 9, n <= 5: finite termination.
+    Later iterates of a floating-point CG run are NOT determined up to rounding (the rounding errors are amplified along the iteration)
+    and are not compared."""
     cases = []; eps = Fr(1, 2 ** 30)
     for ao in "rc":
         # exactly representable runs: one step (A = 2^k I; right-hand side an eigenvector), zero right-hand side, x0 = b already solves
@@ -366,17 +390,16 @@ def gen_J_cases(rng, big):
         cases.append(("exact", J_line(ao, 2, 2, eps, 0, [[2, 1], [1, 2]], [[0, 0], [0, 0]])))
         cases.append(("exact", J_line(ao, 2, 1, eps, 0, [[3, 1], [1, 3]], [[2], [2]])))          # eigenvector (1,1), eigenvalue 4: alpha = 1/4
         cases.append(("exact", J_line(ao, 2, 1, eps, 3, [[2, 0], [0, 8]], [[2], [0]])))
-        for n in [rng.randint(1, 5) for _ in range(3 if not big else 10)]:
-            a = gen_spd_int(rng, n); m = rng.choice([1, 2, 3])
+        cases.append(("exact", J_line(ao, 2, 1, eps, 1, [[1, 0], [0, 4]], [[2], [1]])))          # alpha_0 = 5/8 dyadic: x_1 = (5/4, 5/8) exactly
+        for n in [rng.randint(1, 5) for _ in range(4 if not big else 12)]:
+            a = gen_dd(rng, n, near_identity=(n > 1 and rng.random() < 0.3)); m = rng.choice([1, 2, 3])
             b = [[rint(rng, -4, 4) for _ in range(m)] for _ in range(n)]
-            if rng.random() < 0.3:          # start vector x0 = b better than 0: b nearly an eigenvector of eigenvalue ~1
-                a = [[Fr(int(i == j)) + (Fr(rng.randint(-1, 1), 8) if i != j else 0) for j in range(n)] for i in range(n)]; a = symm(a)
-            for k in list(range(1, n + 1)) + [0]:    # iterates x_1 .. x_n, then the run to convergence
+            for k in (1, n, 0):
                 cases.append(("cgq", J_line(ao, n, m, eps, k, a, b)))
         for n in [rng.randint(2, 12) for _ in range(3 if not big else 8)]:
-            a = gen_float(rng, n, "spd", 10.0 ** rng.choice([0, 1, 2, 3])); m = rng.choice([1, 2])
+            a = gen_dd(rng, n, floats=True); m = rng.choice([1, 2])
             b = [[rng.uniform(-1, 1) for _ in range(m)] for _ in range(n)]
-            for k in (0, rng.randint(1, n)):
+            for k in (1, 0):
                 cases.append(("fmodel", J_line(ao, n, m, 1e-10, k, a, b)))
     return cases
 # ---------------------------------------------------------------- symmetric eigen-decomposition through the model of kernels::syev
@@ -848,17 +871,31 @@ def monitor(kind, line, o):
         if len(og) != 4 or len(og[0]) != n or len(og[1]) != n or len(og[2]) != n * m or len(og[3]) != n * m: return ["malformed result"]
         msgs = []
         X, Y = mat(n, m, og[2]), mat(m, n, og[3])
-        # the right solve runs on the transposed storage (other summation order in the matrix product): equal up to rounding
-        mm = near(Y, tr(X), F_TOL * max(1, amax(X)), "solve(trans(B),right) vs transpose of solve(B,left), symmetric matrix")
-        if mm: msgs.append(mm)
-        mm = near([og[0]], [og[1]], F_TOL * max(1, amax([og[0]])), "vector solve left vs right")
-        if mm: msgs.append(mm)
+        sols = [([[v] for v in og[0]], [[r[0]] for r in b], "solve(b,left)"), ([[v] for v in og[1]], [[r[0]] for r in b], "solve(b,right)"),
+                (X, b, "solve(B,left)"), (tr(Y), b, "solve(trans(B),right)")]
+        res = []
+        for (xx, bb, nm) in sols:
+            ax = mmul(a, xx); res.append([max(abs(ax[i][j] - bb[i][j]) for i in range(n)) for j in range(len(bb[0]))])
+        gap = dd_gap(a)
         if maxit == 0:
-            # returned through the stopping rule: the TRUE residual is below the coded threshold (up to rounding of the maintained residual)
-            for (xx, bb, nm) in (([[v] for v in og[0]], [[r[0]] for r in b], "solve(b)"), (X, b, "solve(B)")):
-                ax = mmul(a, xx); e = amax([[ax[i][j] - bb[i][j] for j in range(len(bb[0]))] for i in range(n)])
+            # proved (C02_cg_*_stop_true_residual): returned through the stopping rule => the TRUE residual, recomputed here exactly, is
+            # below the coded threshold; slack = rounding drift between the maintained and the true residual, 64 n u (|A||x| + |b|)
+            for (xx, bb, nm), rr in zip(sols, res):
                 bound = eps + Fr(C_RES * max(n, 1) * EPS) * (ninf(a) * amax(xx) + amax(bb))
-                if e > bound: msgs.append("%s: residual %.3e after the stopping rule fired, threshold %.3e" % (nm, float(e), float(eps)))
+                if max(rr) > bound: msgs.append("%s: true residual %.3e after the stopping rule fired, threshold %.3e" % (nm, float(max(rr)), float(eps)))
+            # two solutions of the same system differ by at most ||A^-1||_inf (|r| + |r'|) <= (|r| + |r'|) / gap (Varah), per column
+            if gap > 0:
+                for (i1, i2) in ((0, 1), (2, 3)):
+                    x1, x2 = sols[i1][0], sols[i2][0]
+                    for j in range(len(x1[0])):
+                        dv = max(abs(x1[i][j] - x2[i][j]) for i in range(n)); bd = (res[i1][j] + res[i2][j]) / gap
+                        if dv > bd: msgs.append("%s and %s differ by %.3e > (|r|+|r'|)/gap = %.3e" % (sols[i1][2], sols[i2][2], float(dv), float(bd)))
+        elif maxit == n and kind == "cgq" and gap > 0 and n <= 5:
+            # proved in exact arithmetic (C02_cg_*_terminates): after n iterations the residual is 0.  In doubles, for n <= 5 and condition <= 9
+            # the deviation is bounded crudely by (8 cond)^n u |b| <= 72^5 * 1.2e-16 |b| = 2.2e-7 |b|; threshold 1e-6 |b| (+ eps)
+            for (xx, bb, nm), rr in zip(sols, res):
+                bound = eps + Fr(1, 10 ** 6) * max(1, amax(bb))
+                if max(rr) > bound: msgs.append("%s: residual %.3e after n = %d iterations (finite termination), bound %.3e" % (nm, float(max(rr)), n, float(bound)))
         return msgs
     if cmd == "Z":
         tag, n, m = h[1], int(h[3]), int(h[4])
@@ -903,6 +940,43 @@ def close_f(model_line, impl_line):
     if m is None or i is None: return m is None and i is None
     if len(m) != len(i) or any(len(x) != len(y) for x, y in zip(m, i)): return False
     return all(abs(x - y) <= F_TOL * max(1, abs(x)) for gx, gy in zip(m, i) for x, y in zip(gx, gy))
+
+def j_close(kind, line, model_line, impl_line):
+    """conjugate gradient, model (over Q or over doubles) vs implementation, only where the result is determined up to rounding:
+    maxit = 1: the columns of the matrix version (start 0, p0 = r0 = b exact): x_1 = alpha b, alpha = b.b / b.Ab.  Any summation order:
+       relative error of fl(b.b) <= n u; of fl(b.fl(Ab)) <= 2 n u |b|^T|A||b| / b^T A b <= 2 n u ||A||_inf / lambda_min <= 2 n u kappa,
+       kappa = ||A||_inf / gap (Gershgorin: lambda_min >= gap); division and the product alpha*b_i: 2u.  Hence
+       |fl(x_1) - x_1| <= ((3n+1) kappa + 2) u |x_1| to first order; tolerance = 4x that (second-order terms; both sides rounded when the
+       model runs in doubles).
+    maxit = 0 (converged): |x - x'| <= ||A^-1||_inf (|b - A x| + |b - A x'|) <= (|r| + |r'|) / gap with the residuals recomputed exactly.
+    other iteration limits: later iterates are not determined up to rounding -- not compared (the monitor checks termination)."""
+    if model_line.split(" ")[:2] != impl_line.split(" ")[:2]: return False
+    try: mo, io = out_groups(model_line), out_groups(impl_line)
+    except ValueError: return False
+    if mo is None or io is None: return mo is None and io is None
+    g = groups(line); h = g[0]; n, m, maxit = int(h[2]), int(h[3]), int(h[5])
+    if len(mo) != 4 or len(io) != 4 or any(len(x) != len(y) for x, y in zip(mo, io)): return False
+    a = mat(n, n, [num(t) for t in g[1]]); b = mat(n, m, [num(t) for t in g[2]])
+    gap = dd_gap(a)
+    if gap <= 0: return True                     # not generated; no bound available
+    if maxit == 1:
+        kappa = ninf(a) / gap
+        for gi in (2, 3):
+            tol = 4 * ((3 * n + 1) * kappa + 2) * U_ROUND * max([abs(v) for v in mo[gi]] + [0])
+            if any(abs(x - y) > tol for x, y in zip(mo[gi], io[gi])): return False
+        return True
+    if maxit == 0:
+        def cols(gi, out):
+            if gi < 2: return [[[v] for v in out[gi]]], [[r[0]] for r in b]
+            return [mat(n, m, out[2]) if gi == 2 else tr(mat(m, n, out[3]))], b
+        for gi in range(4):
+            (xm,), bb = cols(gi, mo); (xi,), _ = cols(gi, io)
+            axm, axi = mmul(a, xm), mmul(a, xi)
+            for j in range(len(bb[0])):
+                rm = max(abs(axm[i][j] - bb[i][j]) for i in range(n)); ri = max(abs(axi[i][j] - bb[i][j]) for i in range(n))
+                if max(abs(xm[i][j] - xi[i][j]) for i in range(n)) > (rm + ri) / gap: return False
+        return True
+    return True
 
 def key_of(line, build, msg):
     h = line.split("|")[0].split()
@@ -963,7 +1037,7 @@ def main():
                 o = (b[0] if b else ""); msgs = ["implementation crashed/timed out (rc=%s) %s" % (rcb, o)]
             else:
                 o = b[0]; msgs = monitor(kind, line, o)
-            dis = (not msgs) and not a[0].endswith(" -") and ((kind in ("exact", "xlsq") and not same(a[0], o)) or (kind == "lustruct" and not close_lu(a[0], o)) or (kind in FMODEL_KINDS + ("cgq",) and not close_f(a[0], o)))
+            dis = (not msgs) and not a[0].endswith(" -") and ((kind in ("exact", "xlsq") and not same(a[0], o)) or (kind == "lustruct" and not close_lu(a[0], o)) or (kind in FMODEL_KINDS and not line.startswith("J ") and not close_f(a[0], o)) or (kind in FMODEL_KINDS + ("cgq",) and line.startswith("J ") and not j_close(kind, line, a[0], o)))
             if msgs or dis:
                 msg = msgs[0] if msgs else "model and implementation differ"
                 key = key_of(line, bname, msg)
@@ -992,6 +1066,13 @@ def main():
     ck.cov["samples"] = [c[1][:200] for c in cases[:2]]
     ck.notes["case_mix"] = {" ".join(k): v for k, v in sorted(cover.items())}
     ck.notes["builds"] = list(builds)
+    ck.notes["cg_comparison"] = ("J lines. maxit=1, columns of the matrix version (x0 = 0, p0 = r0 = b exact): x_1 = alpha b, alpha = b.b/b.Ab; for any summation order "
+        "relerr(fl(b.b)) <= n u, relerr(fl(b.fl(Ab))) <= 2 n u |b|^T|A||b| / b^T A b <= 2 n u ||A||_inf/lambda_min <= 2 n u kappa with kappa = ||A||_inf/gap, "
+        "gap = min_i(a_ii - sum_j!=i |a_ij|) <= lambda_min (Gershgorin); division and alpha*b_i add 2u: |fl(x_1)-x_1| <= ((3n+1) kappa + 2) u |x_1| to first order, "
+        "tolerance 4x that (u = 2^-53). maxit=0: x - x' = A^-1 (r' - r) for the exactly recomputed residuals r = b - A x, so |x-x'|_inf <= ||A^-1||_inf (|r|+|r'|) "
+        "<= (|r|+|r'|)/gap (Varah); no constant involved. Other iteration limits: iterates not compared. Monitors: |b - A x|_inf < eps + 64 n eps_mach (|A||x|+|b|) "
+        "after a stop through the rule (C02_cg_*_stop_true_residual; slack = drift of the maintained residual); maxit = n <= 5, condition <= 9: residual <= eps + 1e-6 max(1,|b|) "
+        "(C02_cg_*_terminates gives 0 in exact arithmetic; crude amplification bound (8 cond)^n u <= 72^5 * 1.2e-16 = 2.2e-7).")
     ck.finish()
 
 if __name__ == "__main__":
